@@ -4,7 +4,7 @@ import os
 import re
 import vlib
 
-CONFIGS = [("memb", 1, "memb+sys_membarrier"), ("memb", 0, "memb fallback (mb)"), ("mb", 0, "mb flavor")]
+CONFIGS = [("memb", 1, "memb+sys_membarrier"), ("memb", 0, "memb fallback (mb)"), ("mb", 0, "mb flavor"), ("qsbr", 0, "qsbr flavor")]
 ORACLE_OWNER = {"gp": "C01", "litmus": "C01", "DEADLOCK": "C02", "BUDGET": "C02", "sigbalance": "C19",
                 "SELFLOCK": "C02", "BADUNLOCK": "C02"}
 DRV = os.path.join(vlib.LEAN, ".lake", "build", "bin", "drv_gp")
@@ -17,6 +17,10 @@ def build():
         ok, log = vlib.cc(out, srcs, ["-w", "-D" + fl])
         if not ok:
             return False, log
+    srcs[0] = os.path.join(vlib.HARN, "scen", "gp_qsbr.c")
+    ok, log = vlib.cc("gp_qsbr", srcs, ["-w"])
+    if not ok:
+        return False, log
     return True, ""
 
 
@@ -99,9 +103,9 @@ def suite(chk, nseeds, emphasis, own_kinds, rops=30, uops=3, extra_all=()):
     chk.cov["distinct_nontrivial"] = len(nontriv)
     chk.cov["runs_per_config"] = per_cfg
     chk.cov["branch_histogram"] = hist
-    chk.cov["rule"] = ("schedules of harness/scen/gp.c (real src/urcu.c under the shim; 1-4 readers with nested lock/unlock, "
+    chk.cov["rule"] = ("schedules of harness/scen/gp.c (real src/urcu.c and src/urcu-qsbr.c under the shim; 1-4 readers with nested lock/unlock, "
                        "register/unregister churn, parked sections; 1-3 concurrent synchronize_rcu callers; futex fault plans) "
-                       "drawn from VERIF_SEED with random-walk and PCT strategies, for memb+membarrier, memb fallback and mb; "
+                       "drawn from VERIF_SEED with random-walk and PCT strategies, for memb+membarrier, memb fallback, mb and qsbr (quiescent_state/offline/online/self-synchronize); "
                        "every event replayed on Driver/Gp.lean; non-trivial = contains a complete two-pass grace period that "
                        "had to classify an active reader; distinct = different (config, driver coverage summary)")
     return fails
@@ -136,7 +140,7 @@ def report(chk, fails, own_kinds, search):
                                          what="the code no longer issues the fence the x86-TSO proof needs (%s); Lean-checked TSO run of the algorithm without it violates gp_guarantee and gp_litmus" % dmsg[:160]))
             return
     chk.fail("divergence" if f["verdict"] != "crash" else "crash",
-             dict(f, scenario="gp", correspondence="Driver/Gp.lean vs src/urcu.c + static headers",
+             dict(f, scenario="gp", correspondence="Driver/Gp.lean vs src/urcu.c, src/urcu-qsbr.c + static headers",
                   what="the implementation is no longer a run of the proven model (or fails an oracle owned by another property: %s)"
                        % ",".join(sorted(set(sum([x.get("kinds", []) for x in fails], []))))), nofail=True)
 
